@@ -170,6 +170,7 @@ type jsonGenState struct {
 	embeds  int
 	depth   int
 	opt     DocURLOpt
+	long    bool // a long array has been generated (one per document)
 }
 
 // GenJSONDoc draws a JSON document. Narrowings (reasons):
@@ -261,6 +262,23 @@ func (st *jsonGenState) container(t *rapid.T, kind string, depth int, inEmbed bo
 			kid = JNode{K: "lit", S: pick(t, "json.lit", jsonLits)}
 		}
 		n.Kids = append(n.Kids, kid)
+	}
+	// long lists (search results, feeds): an array of 9-40 entries whose URLs sit far from the start
+	if kind == "arr" && !st.long && depth <= 3 && rapid.IntRange(0, 7).Draw(t, "json.long") == 7 {
+		st.long = true
+		total := rapid.IntRange(9, 40).Draw(t, "json.longlen")
+		where := "value"
+		if inEmbed {
+			where = "embed"
+		}
+		for len(n.Kids) < total-1 {
+			if len(n.Kids)%7 == 6 {
+				n.Kids = append(n.Kids, st.url(t, depth, where))
+			} else {
+				n.Kids = append(n.Kids, JNode{K: "lit", S: jsonLits[len(n.Kids)%len(jsonLits)]})
+			}
+		}
+		n.Kids = append(n.Kids, st.url(t, depth, where))
 	}
 	return n
 }
@@ -475,6 +493,19 @@ func GenXMLDoc(t *rapid.T, flavor string, opt DocURLOpt) XMLDoc {
 	st := &xmlGenState{v: xmlVocabs[flavor], opt: opt}
 	root := XNode{K: "elem", Name: st.v.root}
 	root.Attrs = append(root.Attrs, st.v.rootAttrs...)
+	// namespace declarations come in any order (and after other attributes: xsi:schemaLocation first is common)
+	if rot := rapid.IntRange(0, 3).Draw(t, "xml.rootattrorder"); len(root.Attrs) > 1 {
+		switch rot {
+		case 1:
+			root.Attrs = append(root.Attrs[1:], root.Attrs[0])
+		case 2:
+			root.Attrs = append([]XAttr{{Name: "xmlns:xsi", Value: "http://www.w3.org/2001/XMLSchema-instance", Quote: `"`}}, root.Attrs...)
+		case 3:
+			for i, j := 0, len(root.Attrs)-1; i < j; i, j = i+1, j-1 {
+				root.Attrs[i], root.Attrs[j] = root.Attrs[j], root.Attrs[i]
+			}
+		}
+	}
 	body := st.kids(t, 2)
 	if st.v.wrapper != "" {
 		root.Kids = []XNode{{K: "elem", Name: st.v.wrapper, Kids: body}}
